@@ -270,6 +270,19 @@ func buildGens(r int, seed uint64) []namedGen {
 	add(wrap("Just(string)", rapid.Just("x")))
 	add(wrap("SampledFrom", rapid.SampledFrom([]string{"a", "b", "c", dyn1})))
 	add(wrap("Permutation", rapid.Permutation([]int{1, 2, 3, 4, 5, 6, 7}[:4+p%4])))
+	{
+		// the value a check draws is its own: it is sorted in place after the draw.  A generator that hands out its
+		// own slice would then produce other values for the other checks (and for the solo run)
+		gperm := rapid.Permutation([]int{5, 3, 9, 1, 7, 2, 8}[:3+p%5])
+		ng := wrap("Permutation/sorted-in-place", gperm)
+		ng.draw = func(t *rapid.T, label string) string {
+			v := gperm.Draw(t, label)
+			s := pp(v)
+			sort.Ints(v)
+			return s
+		}
+		add(ng)
+	}
 	add(wrap("OneOf", rapid.OneOf(small, rapid.Just(-1), rapid.IntMin(1000))))
 	add(wrap("Ptr(nil ok)", rapid.Ptr(small, true)))
 	add(wrap("Ptr(non-nil)", rapid.Ptr(rapid.String(), false)))
